@@ -20,11 +20,30 @@ def pre_transform(nl, kind, res):
             nl = nl.clone()
             U.MOD_NAME_UID = 0
             U.uniquify(nl)
+        elif kind == "flatten":
+            import spydrnet.flatten as F
+            # flatten's domain (C09): named instances and cables
+            k = 0
+            for L in nl.libraries:
+                for D in L.definitions:
+                    for x in list(D.children) + list(D.cables):
+                        if x.name is None:
+                            k += 1
+                            x.name = "auto%d" % k
+            if any("/" in x.name for L in nl.libraries for D in L.definitions
+                   for x in list(D.children) + list(D.cables)):
+                return nl
+            U.MOD_NAME_UID = 0
+            F.mod_name_uid = 0
+            F.unique_number = 0
+            U.uniquify(nl)
+            F.flatten(nl)
         else:
             return nl
         res.label("netlist-is-product-of-" + kind)
-    except Exception:  # noqa (C07/C08 decide the transforms)
+    except Exception:  # noqa (C07/C08/C09 decide the transforms)
         res.label("pre-transform-raised")
+        return None   # possibly half transformed: nothing to query
     return nl
 
 
@@ -47,7 +66,8 @@ class C12(Prop):
         big = tier == "thorough"
         return gen_ir.Cfg(unnamed=True, max_defs=7 if big else 6, max_children=4 if big else 3,
                           max_width=3 if big else 2, share=True, late=True, dense=True, top="always",
-                          top_modes=["standalone", "definition"], data=False, noref_children=True)
+                          top_modes=["standalone", "definition", "set_top_instance"], data=False,
+                          noref_children=True)
 
     def strategy(self, tier):
         edit = st.fixed_dictionaries({"k": st.sampled_from(["disc1", "discN", "conn", "conn"]),
@@ -57,7 +77,7 @@ class C12(Prop):
                                       "sample": st.integers(0, 1000),
                                       "edits": st.one_of(st.just([]), st.lists(edit, max_size=3)),
                                       "pre": st.sampled_from(["none", "none", "none", "clone", "uniquify",
-                                                              "clone+uniquify"])})
+                                                              "clone+uniquify", "flatten"])})
 
     def fixed_cases(self, tier):
         return gen_ir.example_cases(tier, quick_limit=4000, thorough_limit=9000)
@@ -80,6 +100,8 @@ class C12(Prop):
                 raise RuntimeError("generator produced ill-formed netlist: %r" % pre[:3])
             if nl.top_instance is not None and nl.top_instance.reference is not None:
                 nl = pre_transform(nl, case.get("pre", "none"), res)
+                if nl is None:
+                    return res
         # connections made and cut through the public API (registered pins or (instance, inner pin)
         # proxies) before tracing: the property speaks of all netlists, not only freshly built ones
         for e in case.get("edits") or []:
@@ -172,11 +194,15 @@ class C12(Prop):
             check("get_hcables:hwire:ALL" + tag_extra, sdn.get_hcables, seq, ALL, {k[:-1] for k in want})
             # pins of the wire
             wantp = set()
+            here = p[-1].reference
             for x in pins:
+                # only pins that exist in this occurrence: of a child of this definition, or of one of
+                # its ports (a pin a transformation forgot on the wire is not "attached" to anything)
                 if model.is_outer(x):
                     I, ip = x.instance, x.inner_pin
-                    wantp.add(key(p + (I, ip.port, ip)))
-                else:
+                    if I is not None and ip is not None and I.parent is here:
+                        wantp.add(key(p + (I, ip.port, ip)))
+                elif x.port is not None and x.port.definition is here:
                     wantp.add(key(p + (x.port, x)))
             try:
                 got = [key(seq_of(h)) for h in sdn.get_hpins(href(seq))]
